@@ -2,7 +2,7 @@
 import itertools
 
 ID = 'C13'
-LEAN_MODULES = ['C13', 'C13b', 'C13c']
+LEAN_MODULES = ['C13', 'C13b', 'C13c', 'C13d']
 RULE = ('one case = a real datacake_rpc::Server on loopback with three services (A and B share the message type M1, C handles M1 and M2) and a sequence of '
         'add_service / remove_service events (each add installs a new instance, so replacement is observable); after EVERY event all four (service, message) '
         'pairs are sent over a fresh client channel AND over one long-lived connection per case and classified ok:<instance> / unavailable; quick: all sequences up to length 3 plus random ones up to 10; ' 'a second family has two service TYPES registered under ONE name, a four-message service and eight single-message bystanders (16 pairs called after every event); '
@@ -11,7 +11,7 @@ ASSUMPTIONS = ['(none about a hash function any more: since fix D26 a handler is
                'hyper/h2 deliver each request to the service function (transport is exercised, not modelled)']
 TRUSTED_BASE = ['correspondence: dcharness (real Server::add_service/remove_service + RpcClient::send over 127.0.0.1) vs dcdriver (Datacake.Rpc registry model); '
                 'spec oracle = last-event function `registered`']
-THEOREM_NOTE = 'Datacake.Rpc.addHandlers/removeHandlers/getHandler (Model/Rpc.lean); theorems served_iff_registered, remove_does_not_disable_others, remove_leaves_nothing_behind and their general forms (several types per name) in Props/C13b'
+THEOREM_NOTE = 'Datacake.Rpc.addHandlers/removeHandlers/getHandler (Model/Rpc.lean); theorems served_iff_registered, remove_does_not_disable_others, remove_leaves_nothing_behind and their general forms (several types per name) in Props/C13b; at the wire (Props/C13d, Exchange.exchange over the registry as handler table): wire_unknown_refused, wire_registered_served, wire_registered_error, wire_remove_then_refused, wire_remove_keeps_others'
 EXHAUSTIVE = {'quick': True, 'thorough': True}
 JOBS = 8
 PAIRS = [('A', 'M1'), ('B', 'M1'), ('C', 'M1'), ('C', 'M2')]
